@@ -105,7 +105,7 @@ pub fn bytes_for(w: &World, ev: &Event, delivered: &[Vec<u8>]) -> Option<Vec<u8>
             },
             Target::Unknown => build_reply(w, UNKNOWN_ID, None, reply),
         }),
-        Event::Redeliver(k) => delivered.get(*k).cloned(),
+        Event::Redeliver(k) => if *k == usize::MAX { delivered.last().cloned() } else { delivered.get(*k).cloned() },
         Event::RawBytes(b) => Some(b.clone()),
         _ => None,
     }
